@@ -337,4 +337,359 @@ theorem cFail_shape (sF sF' : CStateF) (hs : sF.cFail = some sF') :
       rw [← hs]
       exact ⟨rfl, rfl, rfl, rfl, rfl, rfl, rfl, rfl, rfl, hbf, by simp, rfl, rfl⟩
 
+/-! ## goal 4: the full linearization `linF` -/
+
+theorem linearize_lin (c : QCfg) (s : CState) (tid : Bool) (op : QOp) (q' : PQState) (o : QOut) :
+    (s.linearize c tid op q' o).bad = true ∨ ∃ e, (s.linearize c tid op q' o).lin = s.lin ++ [e] := by
+  simp only [CState.linearize]
+  cases s.a.stepL tid op (s.q.autoFlush c op) with
+  | none => left; rfl
+  | some r => right; cases tid <;> simp only [if_true, Bool.false_eq_true, if_false] <;> exact ⟨_, rfl⟩
+
+theorem stepP_lin (c : QCfg) (s s' : CState) (h : s.stepP c = some s') :
+    s'.bad = true ∨ s'.lin = s.lin ∨ ∃ e, s'.lin = s.lin ++ [e] := by
+  simp only [CState.stepP] at h
+  cases hprog : s.progP with
+  | nil => rw [hprog] at h; cases h
+  | cons op rest =>
+    rw [hprog] at h
+    simp only at h
+    split at h
+    · simp only [Option.some.injEq] at h; rw [← h]; exact Or.inl rfl
+    cases hpp : s.pp with
+    | idle =>
+      rw [hpp] at h
+      simp only at h
+      split at h
+      · split at h
+        · cases h
+        · simp only [Option.some.injEq] at h; rw [← h]; exact Or.inr (Or.inl rfl)
+      · simp only [Option.some.injEq] at h; rw [← h]
+        rcases linearize_lin c s false op (s.q.step c op).1 (s.q.step c op).2 with hb | he
+        · exact Or.inl hb
+        · exact Or.inr (Or.inr he)
+    | active => rw [hpp] at h; simp only [Option.some.injEq] at h; rw [← h]; exact Or.inr (Or.inl rfl)
+    | pending =>
+      rw [hpp] at h
+      simp only at h
+      split at h
+      · cases h
+      · simp only [Option.some.injEq] at h; rw [← h]
+        rcases linearize_lin c _ false op (s.q.step c op).1 (s.q.step c op).2 with hb | he
+        · exact Or.inl hb
+        · exact Or.inr (Or.inr he)
+
+theorem stepC_lin (c : QCfg) (s s' : CState) (h : s.stepC c = some s') :
+    s'.bad = true ∨ s'.lin = s.lin ∨ ∃ e, s'.lin = s.lin ++ [e] := by
+  simp only [CState.stepC] at h
+  cases hprog : s.progC with
+  | nil => rw [hprog] at h; cases h
+  | cons op rest =>
+    rw [hprog] at h
+    simp only at h
+    split at h
+    · simp only [Option.some.injEq] at h; rw [← h]; exact Or.inl rfl
+    have lin_case : ∀ (s1 : CState) (q' : PQState) (o : QOut), s1.lin = s.lin →
+        (s1.linearize c true op q' o).bad = true ∨ (s1.linearize c true op q' o).lin = s.lin ∨
+          ∃ e, (s1.linearize c true op q' o).lin = s.lin ++ [e] := by
+      intro s1 q' o h1
+      rcases linearize_lin c s1 true op q' o with hb | he
+      · exact Or.inl hb
+      · rw [h1] at he; exact Or.inr (Or.inr he)
+    cases hcp : s.cp with
+    | idle =>
+      rw [hcp] at h
+      cases op <;> simp only at h <;> (repeat' split at h) <;>
+        simp only [Option.some.injEq, reduceCtorEq] at h <;>
+        first
+        | (rw [← h]; exact Or.inl rfl)
+        | (rw [← h]; exact lin_case _ _ _ rfl)
+        | (rw [← h]; exact Or.inr (Or.inl rfl))
+    | planned p =>
+      rw [hcp] at h
+      simp only at h
+      split at h
+      · cases h
+      · simp only [Option.some.injEq] at h; rw [← h]; exact Or.inr (Or.inl rfl)
+    | active p =>
+      rw [hcp] at h
+      simp only [Option.some.injEq] at h; rw [← h]; exact Or.inr (Or.inl rfl)
+    | pending p =>
+      rw [hcp] at h
+      simp only at h
+      split at h
+      · cases h
+      · split at h
+        · simp only [Option.some.injEq] at h; rw [← h]; exact lin_case _ _ _ rfl
+        · simp only [Option.some.injEq] at h; rw [← h]; exact Or.inl rfl
+
+/-- **the shape lemma**: what a regular step appends to the base linearization and to the base outputs -/
+theorem reg_track (c : QCfg) (p0 c0 : List QOp) (s s' : CState) (t : Bool) (hL : LInv c p0 c0 s)
+    (hL' : LInv c p0 c0 s') (hb' : s'.bad = false) (hs : s.step c t = some s') :
+    (s'.lin.drop s.lin.length = [] ∧ s'.a = s.a ∧ s'.outP.drop s.outP.length = [] ∧
+      s'.outC.drop s.outC.length = []) ∨
+    (∃ e, s'.lin.drop s.lin.length = [e] ∧ s.a.stepL e.tid e.op e.fl = some (s'.a, e.out) ∧
+      s'.outP.drop s.outP.length = (if e.tid then [] else [e.out]) ∧
+      s'.outC.drop s.outC.length = (if e.tid then [e.out] else [])) := by
+  have hshape : s'.bad = true ∨ s'.lin = s.lin ∨ ∃ e, s'.lin = s.lin ++ [e] := by
+    simp only [CState.step] at hs
+    split at hs
+    · cases hs
+    · cases t with
+      | true => exact stepC_lin c s s' hs
+      | false => exact stepP_lin c s s' hs
+  rcases hshape with hb | hl | ⟨e, hl⟩
+  · rw [hb'] at hb; cases hb
+  · left
+    have ha : s'.a = s.a := by
+      have h1 := hL'.linr; rw [hl, hL.linr] at h1
+      exact (Option.some.inj h1).symm
+    have hp : s'.outP = s.outP := by rw [hL'.outP, hL.outP, hl]
+    have hc : s'.outC = s.outC := by rw [hL'.outC, hL.outC, hl]
+    exact ⟨by rw [hl]; simp, ha, by rw [hp]; simp, by rw [hc]; simp⟩
+  · right
+    refine ⟨e, by rw [hl]; simp, ?_, ?_, ?_⟩
+    · have h1 := hL'.linr
+      rw [hl, runLin_append, hL.linr] at h1
+      simp only [Option.bind_some] at h1
+      cases hst : s.a.stepL e.tid e.op e.fl with
+      | none => rw [hst] at h1; cases h1
+      | some r =>
+        obtain ⟨a2, o⟩ := r
+        rw [hst] at h1
+        simp only at h1
+        split at h1
+        · rename_i ho
+          simp only [Option.some.injEq] at h1
+          rw [ho, h1]
+        · cases h1
+    · rw [hL'.outP, hl, linP_append, hL.outP]
+      cases e.tid <;> simp
+    · rw [hL'.outC, hl, linC_append, hL.outC]
+      cases e.tid <;> simp
+
+def linPF (l : List LinEvF) : List LinEvF := l.filter fun e => !e.tid
+def linCF (l : List LinEvF) : List LinEvF := l.filter fun e => e.tid
+
+theorem linPF_append (l : List LinEvF) (e : LinEvF) : linPF (l ++ [e]) = if e.tid then linPF l else linPF l ++ [e] := by
+  simp only [linPF, List.filter_append, List.filter_cons, List.filter_nil]
+  cases e.tid <;> simp
+
+theorem linCF_append (l : List LinEvF) (e : LinEvF) : linCF (l ++ [e]) = if e.tid then linCF l ++ [e] else linCF l := by
+  simp only [linCF, List.filter_append, List.filter_cons, List.filter_nil]
+  cases e.tid <;> simp
+
+/-- one more linearized call -/
+def ASpec.stepLF (a : ASpec) (e : LinEvF) : Option ASpec :=
+  match e.out with
+  | .txFailed => a.failL e.tid e.op
+  | .ret o' =>
+    match a.stepL e.tid e.op e.fl with
+    | none => none
+    | some (a1, o) => if o = o' then some a1 else none
+
+theorem runLinF_append (l : List LinEvF) (e : LinEvF) : ∀ a : ASpec,
+    ASpec.runLinF a (l ++ [e]) = (ASpec.runLinF a l).bind fun a1 => a1.stepLF e := by
+  induction l with
+  | nil =>
+    intro a
+    simp only [List.nil_append, ASpec.runLinF, Option.bind_some, ASpec.stepLF]
+    cases e.out with
+    | txFailed => simp only; cases a.failL e.tid e.op <;> rfl
+    | ret o' =>
+      simp only
+      cases a.stepL e.tid e.op e.fl with
+      | none => rfl
+      | some r => simp only
+  | cons x xs ih =>
+    intro a
+    simp only [List.cons_append, ASpec.runLinF]
+    cases x.out with
+    | txFailed =>
+      simp only
+      cases a.failL x.tid x.op with
+      | none => rfl
+      | some a1 => exact ih a1
+    | ret o' =>
+      simp only
+      cases a.stepL x.tid x.op x.fl with
+      | none => rfl
+      | some r =>
+        simp only
+        split
+        · exact ih r.1
+        · rfl
+
+/-- the full linearization: accepted by the specification with failed calls, and the threads have seen exactly
+    the results recorded in it -/
+structure GInv (sF : CStateF) : Prop where
+  linr : ASpec.runLinF {} sF.linF = some sF.base.a
+  outP : sF.outPF = (linPF sF.linF).map (·.out)
+  outC : sF.outCF = (linCF sF.linF).map (·.out)
+
+/-- appending one linearized call -/
+theorem GInv_append (sF sF' : CStateF) (e : LinEvF) (hG : GInv sF) (hl : sF'.linF = sF.linF ++ [e])
+    (ha : sF.base.a.stepLF e = some sF'.base.a)
+    (hp : sF'.outPF = sF.outPF ++ (if e.tid then [] else [e.out]))
+    (hc : sF'.outCF = sF.outCF ++ (if e.tid then [e.out] else [])) : GInv sF' := by
+  refine ⟨?_, ?_, ?_⟩
+  · rw [hl, runLinF_append, hG.linr]; exact ha
+  · rw [hp, hl, linPF_append, hG.outP]; cases e.tid <;> simp
+  · rw [hc, hl, linCF_append, hG.outC]; cases e.tid <;> simp
+
+theorem pFail_track (c : QCfg) (sF sF' : CStateF) (o : FlushOutcome) (hs : sF.pFail c o = some sF') :
+    sF'.base.bad = true ∨ ∃ op, sF'.linF = sF.linF ++ [⟨false, op, false, .txFailed⟩] ∧
+      sF.base.a.failL false op = some sF'.base.a := by
+  simp only [CStateF.pFail] at hs
+  split at hs
+  · cases hs
+  cases hprog : sF.base.progP with
+  | nil => rw [hprog] at hs; cases hs
+  | cons op rest =>
+    rw [hprog] at hs
+    simp only at hs
+    split at hs
+    · cases hs
+    rename_i hop
+    split at hs
+    · cases hs
+    cases op with
+    | next =>
+      simp only at hs
+      cases hst : sF.base.a.stepL false .next false with
+      | none =>
+        rw [hst] at hs
+        simp only [Option.some.injEq] at hs
+        rw [← hs]; exact Or.inl rfl
+      | some r =>
+        obtain ⟨a', o'⟩ := r
+        rw [hst] at hs
+        simp only [Option.some.injEq] at hs
+        rw [← hs]
+        exact Or.inr ⟨.next, rfl, by simp [ASpec.failL, hst]⟩
+    | write p => simp only [Option.some.injEq] at hs; rw [← hs]; exact Or.inr ⟨_, rfl, rfl⟩
+    | flush => simp only [Option.some.injEq] at hs; rw [← hs]; exact Or.inr ⟨_, rfl, rfl⟩
+    | _ => simp [QOp.isProducer] at hop
+
+theorem cFail_track (sF sF' : CStateF) (hs : sF.cFail = some sF') :
+    ∃ op rest, sF.base.progC = op :: rest ∧ sF'.linF = sF.linF ++ [⟨true, op, false, .txFailed⟩] := by
+  simp only [CStateF.cFail] at hs
+  split at hs
+  · cases hs
+  cases hprog : sF.base.progC with
+  | nil => rw [hprog] at hs; cases hs
+  | cons op rest =>
+    rw [hprog] at hs
+    simp only at hs
+    cases hcp : sF.base.cp with
+    | idle => rw [hcp] at hs; cases hs
+    | planned p =>
+      rw [hcp] at hs
+      simp only at hs
+      split at hs
+      · cases hs
+      simp only [Option.some.injEq] at hs
+      rw [← hs]
+      exact ⟨op, rest, rfl, rfl⟩
+    | active p =>
+      rw [hcp] at hs
+      simp only [Option.some.injEq] at hs
+      rw [← hs]
+      exact ⟨op, rest, rfl, rfl⟩
+    | pending p =>
+      rw [hcp] at hs
+      simp only [Option.some.injEq] at hs
+      rw [← hs]
+      exact ⟨op, rest, rfl, rfl⟩
+
+/-- invariant of the extended relation with the full linearization -/
+def CGInv (c : QCfg) (sF : CStateF) : Prop := sF.base.bad = true ∨ (CFInv c sF.base ∧ GInv sF)
+
+theorem concF_step_ginv (c : QCfg) (hP : 64 ≤ c.P) (sF sF' : CStateF) (st : CStepF) (h : CGInv c sF)
+    (hs : sF.step c st = some sF') : CGInv c sF' := by
+  have hF : CInvF c sF := by
+    rcases h with h | h
+    · exact Or.inl h
+    · exact Or.inr h.1
+  rcases concF_step_inv c hP sF sF' st hF hs with hb' | hF'
+  · exact Or.inl hb'
+  by_cases hb' : sF'.base.bad = true
+  · exact Or.inl hb'
+  have hbf' : sF'.base.bad = false := by simpa using hb'
+  right
+  refine ⟨hF', ?_⟩
+  rcases h with hbad | ⟨⟨hL, hK⟩, hG⟩
+  · exfalso
+    cases st <;> simp [CStateF.step, CStateF.reg, CState.step, CStateF.pFail, CStateF.cFail, hbad] at hs
+  cases st with
+  | reg t =>
+    simp only [CStateF.step, CStateF.reg] at hs
+    cases hst : sF.base.step c t with
+    | none => rw [hst] at hs; cases hs
+    | some s' =>
+      rw [hst] at hs
+      simp only [Option.some.injEq] at hs
+      have hbase : sF'.base = s' := by rw [← hs]
+      have hL' : LInv c sF.base.effP sF.base.effC s' := by
+        rcases step_inv c hP _ _ sF.base s' t (Or.inr ⟨hL, hK⟩) hst with hb | ⟨h1, _⟩
+        · rw [← hbase, hbf'] at hb; cases hb
+        · exact h1
+      rcases reg_track c _ _ sF.base s' t hL hL' (by rw [← hbase]; exact hbf') hst with
+        ⟨e1, e2, e3, e4⟩ | ⟨e, e1, e2, e3, e4⟩
+      · rw [← hs]
+        refine ⟨?_, ?_, ?_⟩
+        · show ASpec.runLinF {} (sF.linF ++ _) = some s'.a
+          rw [e1, e2]; simpa using hG.linr
+        · show sF.outPF ++ _ = (linPF (sF.linF ++ _)).map _
+          rw [e1, e3]; simpa using hG.outP
+        · show sF.outCF ++ _ = (linCF (sF.linF ++ _)).map _
+          rw [e1, e4]; simpa using hG.outC
+      · refine GInv_append sF sF' e.toF hG (by rw [← hs, e1]; rfl) ?_ ?_ ?_
+        · rw [hbase]
+          simp only [ASpec.stepLF, LinEv.toF, e2, if_true]
+        · rw [← hs, e3]; cases ht : e.tid <;> simp [LinEv.toF, ht]
+        · rw [← hs, e4]; cases ht : e.tid <;> simp [LinEv.toF, ht]
+  | pFail o =>
+    simp only [CStateF.step] at hs
+    rcases pFail_track c sF sF' o hs with hb | ⟨op, e1, e2⟩
+    · rw [hbf'] at hb; cases hb
+    rcases pFail_shape c sF sF' o hs with hb | ⟨_, _, _, _, _, _, _, _, e3, e4⟩
+    · rw [hbf'] at hb; cases hb
+    exact GInv_append sF sF' _ hG e1 (by simpa [ASpec.stepLF] using e2) (by simpa using e3) (by simpa using e4)
+  | cFail =>
+    simp only [CStateF.step] at hs
+    obtain ⟨op, rest, e1, e2⟩ := cFail_track sF sF' hs
+    obtain ⟨_, ea, _, _, _, _, _, _, _, _, hcp, e3, e4⟩ := cFail_shape sF sF' hs
+    obtain ⟨p, hpl⟩ : ∃ p, sF.base.cp.plan? = some p := by
+      cases hq : sF.base.cp with
+      | idle => exact absurd hq hcp
+      | planned p => exact ⟨p, rfl⟩
+      | active p => exact ⟨p, rfl⟩
+      | pending p => exact ⟨p, rfl⟩
+    obtain ⟨n, rest', h1, h2, _⟩ := hK.plan p hpl
+    rw [e1] at h1
+    simp only [List.cons.injEq] at h1
+    have hop : op = .ack n := h1.1
+    have hn := h2.hn
+    refine GInv_append sF sF' _ hG e2 ?_ (by simpa using e4) (by simpa using e3)
+    rw [ea, hop]
+    simp [ASpec.stepLF, ASpec.failL, hn]
+
+theorem concF_run_ginv (c : QCfg) (hP : 64 ≤ c.P) : ∀ (sched : List CStepF) (sF : CStateF),
+    CGInv c sF → CGInv c (CStateF.run c sF sched) := by
+  intro sched
+  induction sched with
+  | nil => intro s h; exact h
+  | cons t ts ih =>
+    intro s h
+    simp only [CStateF.run]
+    cases hs : s.step c t with
+    | none => exact ih s h
+    | some s' => exact ih s' (concF_step_ginv c hP s s' t h hs)
+
+theorem concF_init_ginv (c : QCfg) (hP : 64 ≤ c.P) (p0 c0 : List QOp) : CGInv c (CStateF.init c p0 c0) := by
+  rcases concF_init_inv c hP p0 c0 with h | h
+  · exact Or.inl h
+  · exact Or.inr ⟨h, rfl, rfl, rfl⟩
+
 end TxVerif
